@@ -226,3 +226,58 @@ func isNilFunc(f value) bool {
 	}
 	return false
 }
+
+// ---- github.com/puzpuzpuz/xsync/v3 MapOf: modelled as an insertion-ordered association list with
+// (possibly symbolic) key comparison. The concurrent-map internals (unsafe, hashing, striped
+// counters) are irrelevant to every claim; sequential map semantics are what the registry needs.
+
+func xmapOf(m *Machine, p value) *omap {
+	c := m.derefPtr(p)
+	o, ok := (*c).(opaque)
+	if !ok || o.kind != "xmap" {
+		m.unsupported("xsync.MapOf receiver not created by NewMapOf")
+	}
+	return o.obj.(*omap)
+}
+
+func init() {
+	prefixModels = append(prefixModels, prefixModel{prefix: "github.com/puzpuzpuz/xsync/v3.NewMapOf[", pick: func(fn *ssa.Function, name string) interceptFn {
+		return func(m *Machine, _ *frame, fn *ssa.Function, a []value) value {
+			ta := fn.TypeArgs()
+			cell := new(value)
+			*cell = opaque{kind: "xmap", obj: &omap{keyType: ta[0]}}
+			return cell
+		}
+	}})
+	prefixModels = append(prefixModels, prefixModel{prefix: "(*github.com/puzpuzpuz/xsync/v3.MapOf[", pick: func(fn *ssa.Function, name string) interceptFn {
+		i := strings.LastIndex(name, ").")
+		if i < 0 {
+			return nil
+		}
+		switch name[i+2:] {
+		case "Store":
+			return func(m *Machine, _ *frame, _ *ssa.Function, a []value) value {
+				m.mapInsert(xmapOf(m, a[0]), a[1], copyVal(a[2]))
+				return nil
+			}
+		case "Load":
+			return func(m *Machine, _ *frame, fn *ssa.Function, a []value) value {
+				mp := xmapOf(m, a[0])
+				if i := m.mapFind(mp, a[1]); i >= 0 {
+					return tuple{copyVal(mp.vals[i]), m.tt.Bool(true)}
+				}
+				return tuple{m.zero(fn.Signature.Results().At(0).Type()), m.tt.Bool(false)}
+			}
+		case "Delete":
+			return func(m *Machine, _ *frame, _ *ssa.Function, a []value) value {
+				m.mapDelete(xmapOf(m, a[0]), a[1])
+				return nil
+			}
+		case "Size":
+			return func(m *Machine, _ *frame, _ *ssa.Function, a []value) value {
+				return m.tt.Const(64, uint64(len(xmapOf(m, a[0]).keys)))
+			}
+		}
+		return nil
+	}})
+}
